@@ -45,7 +45,11 @@ TReset == /\ Is("reset") /\ phase' = "idle" /\ runIgn' = FALSE /\ pkg' = <<>> /\
           /\ files' = <<>> /\ done' = <<>> /\ cnt' = [g |-> 0, t |-> 0, f |-> 0, p |-> 0]
 TSpec == TInit /\ [][TNext \/ TReset]_tvars
 Accepted == TLCGet("stats").diameter - 1 = Len(Tr)
-TInv == OneFilePerGroup /\ SuiteCountsTrue /\ CasesFaithful /\ OutputFaithful /\ WellFormedRoundTrip /\ FileNamesOK /\ BookkeepingOK
+\* Every state of the observed execution is checked and a call writes at most one document, so looking at the last
+\* document in every state examines every document (and keeps validation linear in the length of the run).
+TInv == LET k == Len(files) IN
+        /\ OneFilePerGroup /\ SuiteCountsTrueFrom(k) /\ CasesFaithfulFrom(k) /\ OutputFaithfulFrom(k)
+        /\ WellFormedRoundTripFrom(k) /\ FileNamesOKFrom(k) /\ BookkeepingOK
 
 \* diagnostics: the same walk with the observations unbound, printing the document the specification writes
 PNext == \/ Is("start") /\ TestsStarted(E.ri, E.pkg)
